@@ -250,6 +250,35 @@ def run(cx):
     cx.ob("R18.deletes", df.id + "|plans-deletes", len(dd) >= 2 and len(dfl) >= 2,
           "diff must plan deletion of vanished entity directories, selectable directories, nested files and root "
           "files (found %d directory and %d file deletions)" % (len(dd), len(dfl)), df.loc())
+    # a planned deletion depends on membership in the new state only: no size comparison decides whether the
+    # deletion loop runs ("the selectable did not shrink" does not mean that no file went away)
+    LEN = r"(HashMap|HashSet|BTreeMap|Vec)::<.*>::len$|::len$"
+    size_closures = set()
+    for c_ in fb.closures_of(df):
+        for st_ in c_.stmts():
+            if st_.rv == "binop" and st_.j["binop"] in ("Lt", "Le", "Gt", "Ge") and any(
+                    op_place(o_) is not None and local_flows_from(c_, op_place(o_).local, lambda x: not hasattr(x, "rv") and re.search(LEN, x.callee or ""), 4) is not None
+                    for o_ in st_.ops):
+                size_closures.add(c_.id)
+    for k_, a in enumerate(dfl + dd):
+        foreign = []
+        for b_ in df.blocks:
+            t_ = b_.term
+            if t_.op != "switch" or not df.dominates(b_.i, a.bb) or b_.i == a.bb:
+                continue
+            pl_ = op_place(t_.j["discr"])
+            if pl_ is None:
+                continue
+            if size_closures and local_flows_from(df, pl_.local, lambda x: hasattr(x, "rv") and x.rv == "aggregate" and x.j.get("def") in size_closures, 6) is not None:
+                foreign.append("closure at L%d" % t_.line)
+            for d_ in local_defs(df, pl_.local):
+                if hasattr(d_, "rv") and d_.rv == "binop" and d_.j["binop"] in ("Lt", "Le", "Gt", "Ge"):
+                    if any(op_place(o_) is not None and local_flows_from(df, op_place(o_).local, lambda x: not hasattr(x, "rv") and re.search(
+                            r"(HashMap|HashSet|BTreeMap|Vec)::<.*>::len$|::len$", x.callee or ""), 4) is not None for o_ in d_.ops):
+                        foreign.append("L%d" % d_.line)
+        cx.ob("R18.deletes", "%s|%s#%d-decided-by-membership-only" % (df.id, a.j["variant"], k_), not foreign,
+              "whether a stale %s is planned depends on a comparison of collection sizes (%s): a directory that loses one "
+              "file and gains another keeps the stale file" % (a.j["variant"], foreign), df.loc(a.line), nontrivial=False)
     # the survival test that guards a directory deletion is keyed by every name component of that directory
     for a in dd:
         pth = op_place(a.ops[0])
